@@ -11,10 +11,15 @@ Streams
                  Two instance families: mixed dies (blockages, fixed regions, soft/hard/flippable modules) and
                  "settled start" (grid of cells, one module per cell with a square of 0.9-1.25 cell sides: every cell has a
                  dominant module above the threshold although the initial allocation over-occupies cells; max_iter 1..3, None).
+                 Third family "infeasible": two modules at the same initial position in a grid corner (NLP without a
+                 solution): the real code raises; returning there is a failure.  Every GEKKO `solve` is wrapped: a run that
+                 RETURNS although some solve did not report success (APPSTATUS != 1) fails `returned-without-solver-success`;
+                 a captured answer outside SolverPost (beyond 1e-6) in a returned run fails too (no longer excused).
   loop-live      the observed sequence of must_be_refined / refine / optimize_allocation calls of each run replayed
                  through the model's loop `loopG` (driver op `loop`): loop structure, incl. "optimise before stopping".
   extract-live   every `extract_solution` call of those runs: captured answer -> Lean `extractSolution` (Float) vs what
-                 Python returned, tolerance 1e-9; `SolverPost` monitored (anomalies are evidence, not violations).
+                 Python returned, tolerance 1e-9; `SolverPost` checked (violations in runs that did not return are
+                 evidence only; in returned runs they are failures).
   consts-live    which entries of `model.a` are constants / variables and `get_a`: Lean `aIsConst`/`getA` vs Python.
   extract-synth  the real `extract_solution` on synthetic answers (no solver): F stream (arbitrary doubles, boundary
                  values `a == 1 - threshold`, out-of-range ratios, overlapping cells) and Q stream (dyadic data with
@@ -547,6 +552,31 @@ def gen_settled(rng, idx: int) -> dict:
             "max_iter": rng.choice([1, 2, 3, None])}
 
 
+def gen_infeasible(rng, idx: int) -> dict:
+    """instances whose NLP has no solution / does not converge: a g x g grid, two modules (soft/soft or soft/hard) given
+    the SAME initial position in a corner, each covering the corner cell and its neighbours, so that both ratios are
+    frozen to 1 there; a third module elsewhere.  On the real code the optimiser raises (did not return)."""
+    g = rng.choice([3, 4, 4])
+    side = rng.choice([1, 1, 2])
+    W = H = g * side
+    corner = rng.choice([(0, 0), (1, 0), (0, 1), (1, 1)])
+    big = 2 * side
+    cx = big / 2 if corner[0] == 0 else W - big / 2
+    cy = big / 2 if corner[1] == 0 else H - big / 2
+    modules = {"A": {"area": big * big, "center": [cx, cy]}}
+    if rng.random() < 0.5:
+        modules["B"] = {"area": big * big, "center": [cx, cy]}
+    else:
+        modules["B"] = {"hard": True, "rectangles": [[cx, cy, big, big]]}
+    ox, oy = W - cx, H - cy
+    modules["C"] = {"area": rng.choice([1, 2]) * side * side, "center": [ox, oy]}
+    order = ["A", "B", "C"]
+    return {"idx": idx, "family": "infeasible", "die": {"width": W, "height": H, "regions": []}, "modules": modules,
+            "order": order, "nets": [["A", "B"], ["B", "C"]], "refine": {"grid": [g, g]},
+            "thr": rng.choice([0.5, 0.6, 0.7, 0.8, 0.8, 0.9, 0.95]), "alpha": rng.choice([0.1, 0.3, 0.5]),
+            "max_iter": rng.choice([1, 1, 2])}
+
+
 def _yaml(obj) -> str:
     import json
     return json.dumps(obj)   # JSON is YAML
@@ -739,6 +769,24 @@ def run_instance(inst: dict) -> dict:
         return r
 
     def w_sol(model, *a, **k):
+        g_solve = model.gekko.solve
+
+        def solve(*sa, **sk):
+            raised = True
+            try:
+                r = g_solve(*sa, **sk)
+                raised = False
+                return r
+            finally:
+                # GEKKO reports success of the NLP solve in options.APPSTATUS (1 = solution found); it only RAISES
+                # on failure when called with debug >= 1 — FRAME may return only when the solver reported success
+                try:
+                    st_ = int(model.gekko.options.APPSTATUS)
+                except Exception:
+                    st_ = -1
+                loop.append(["S", (not raised) and st_ == 1, st_, raised])
+
+        model.gekko.solve = solve
         try:
             return o_sol(model, *a, **k)
         finally:
@@ -837,21 +885,35 @@ def loop_check(ctx: Ctx, inst: dict, out: dict, reqs: list, todo: list) -> None:
     if ev is None or out["status"] in ("rejected-input",):
         return
     ms = [e[1] for e in ev if e[0] == "M"]
-    os_ = [e[1] for e in ev if e[0] == "O"]
+    # the model's optimise step is `solve s = none` (solver failure) or extract_solution failing: a pass counts as
+    # successful for the model only if Python's pass returned AND every solve of that pass reported success —
+    # "Python raised <=> the model's solve/extract = none"
+    os_, ok_solves = [], True
+    for e in ev:
+        if e[0] == "S":
+            ok_solves = ok_solves and bool(e[1])
+        elif e[0] == "O":
+            os_.append(bool(e[1]) and ok_solves)
+            ok_solves = True
     if out["status"] == "returned":
-        acts = [("R" if e[0] == "R" else "O") for e in ev if e[0] != "M"]
+        acts = [("R" if e[0] == "R" else "O") for e in ev if e[0] not in ("M", "S")]
         rest = "0" if ev and ev[-1] == ["M", False] else "-"
         exp = f"ret {','.join(acts) if acts else '-'} {rest} 0"
     elif ev and ev[-1] == ["O", False]:
         exp = "none"
     else:
         return          # raised outside optimize_allocation (initial allocation, refine): not a loop observation
+    if out["status"] == "returned" and any(e[0] == "S" and not e[1] for e in ev):
+        bad = [e for e in ev if e[0] == "S" and not e[1]]
+        ctx.spec_fail("returned-without-solver-success", {"kind": "glb", "inst": inst},
+                      {"solves": len([e for e in ev if e[0] == "S"]), "failed": len(bad), "appstatus": [e[2] for e in bad]},
+                      len(inst["order"]))
     mi = -1 if inst["max_iter"] is None else inst["max_iter"]
     reqs.append(f"F loop {mi} {len(os_) + 3} {len(ms)}" + "".join(f" {int(b)}" for b in ms) +
                 f" {len(os_)}" + "".join(f" {int(b)}" for b in os_))
     todo.append(("loop-live", {"kind": "glb", "inst": inst}, exp, "X", len(ev)))
     ctx.case("loop-live", (inst["idx"], str(ev), mi), len(ev) > 1)
-    ctx.count("loop:" + "".join(e[0] + (str(int(e[1])) if len(e) > 1 else "") for e in ev)[:24])
+    ctx.count("loop:" + "".join(e[0] + (str(int(e[1])) if len(e) > 1 else "") for e in ev if e[0] != "S")[:24])
 
 
 def run_instances(insts: list[dict]) -> list[dict]:
@@ -942,17 +1004,19 @@ def spec_run(ctx: Ctx, inst: dict, out: dict) -> None:
 
 
 def solver_post(case: dict) -> list[str]:
-    """`SolverPost` of FV/Props/C10.lean on a captured answer; returns the violated parts."""
+    """`SolverPost` of FV/Props/C10.lean on a captured answer, each part within the solver tolerance `SOLVER_TOL`;
+    returns the violated parts."""
     bad = []
     n = len(case["cells"])
+    t = _F(SOLVER_TOL)
     X0, Y0, X1, Y1 = _bb(case["die_bb"])
     for m in case["mods"]:
-        if any(not (0 <= v <= 1) for v in m["a"]):
+        if any(not (-t <= _F(v) <= 1 + t) for v in m["a"]):
             bad.append("bounds")
-        if not (X0 <= _F(m["x"]) <= X1 and Y0 <= _F(m["y"]) <= Y1):
+        if not (X0 - t <= _F(m["x"]) <= X1 + t and Y0 - t <= _F(m["y"]) <= Y1 + t):
             bad.append("centres")
     for c in range(n):
-        if sum(_F(m["a"][c]) for m in case["mods"]) > 1 + _F(SOLVER_TOL):
+        if sum(_F(m["a"][c]) for m in case["mods"]) > 1 + t:
             bad.append("rows")
     return sorted(set(bad))
 
@@ -981,9 +1045,15 @@ def check_calls(ctx: Ctx, inst: dict, out: dict, reqs: list, todo: list) -> None
             st["appstatus_not_1"] += 1
         if bad:
             if len(st["anomalies"]) < 10:
-                st["anomalies"].append({"instance": inst["idx"], "call": k, "violated": bad, "appstatus": case["appstatus"]})
+                st["anomalies"].append({"instance": inst["idx"], "call": k, "violated": bad, "appstatus": case["appstatus"],
+                                        "run": out["status"]})
             st.setdefault("anomaly_count", 0)
             st["anomaly_count"] += 1
+            if out["status"] == "returned":
+                # an answer outside SolverPost (beyond the solver tolerance) was extracted in a run that RETURNED:
+                # not excused — FRAME built the model and decided to go on with this answer
+                ctx.spec_fail("solver-post-violated-on-returned-run", {"kind": "glb", "inst": inst},
+                              {"call": k, "violated": bad, "appstatus": case["appstatus"]}, len(inst["order"]))
         else:
             st["satisfied"] += 1
         # ConstRespect / OfferedFixed hypotheses of `fixed_kept` hold on the captured data
@@ -1080,6 +1150,7 @@ def run(ctx: Ctx) -> None:
     n_runs = ctx.n(32, 320)
     insts = [gen_instance(ctx.rng, i) for i in range(n_runs)]
     insts += [gen_settled(ctx.rng, n_runs + i) for i in range(ctx.n(16, 120))]
+    insts += [gen_infeasible(ctx.rng, len(insts) + i) for i in range(ctx.n(8, 40))]
     n_runs = len(insts)
     outs = run_instances(insts)
     status: dict[str, int] = {}
@@ -1090,7 +1161,7 @@ def run(ctx: Ctx) -> None:
                  sample=({"die": inst["die"], "modules": inst["modules"], "thr": inst["thr"], "alpha": inst["alpha"],
                           "max_iter": inst["max_iter"], "refine": inst["refine"], "status": out["status"],
                           "cells_returned": len(out.get("final_alloc", []))} if returned else None))
-        ctx.count(("settled:" if inst.get("family") == "settled" else "glb:") + out["status"])
+        ctx.count((inst.get("family", "glb") + ":") + out["status"])
         loop_check(ctx, inst, out, reqs, todo)
         if out["status"].startswith("operation-raised"):
             ctx.spec_fail("operation-raised", {"kind": "glb", "inst": inst}, {"exception": out["exc"], "where": out.get("trace")},
